@@ -10,6 +10,7 @@
 (*   mps      : set of [pk, name]                                          *)
 (*   periods  : set of [pk, parent, stream]                                *)
 (*   adps     : set of [pk, period]                                        *)
+(*   errors   : set of [pk, media]           media_file_error rows         *)
 (* Property level: clauses over one state, or over a (state, op, state')   *)
 (* step.  Implementation level: StoreMC.                                   *)
 (***************************************************************************)
@@ -39,8 +40,8 @@ C17_NamesUnique(st) ==
 \* rows owned by a stream / a media file / a key / a multi-period stream
 FilesOf(st, spk) == { f \in st.files : f.stream = spk }
 \* a deletion removes exactly the rows it owns:
-\*   delete_stream(spk): the stream, its media files, their blobs and key links
-\*   delete_media(mpk) : the file, its blob, its key links
+\*   delete_stream(spk): the stream, its media files, their blobs, key links and index-error rows
+\*   delete_media(mpk) : the file, its blob, its key links, its index-error rows
 \*   delete_key(kpk)   : the key and its links
 \*   delete_mps(mpk)   : the mps, its periods, their adaptation sets
 \* and everything else is unchanged.
@@ -50,25 +51,37 @@ C17_DeleteStreamExact(a, b, spk) ==
     /\ b.files = a.files \ fs
     /\ b.blobs = a.blobs \ { f.blob : f \in fs }
     /\ b.links = { k \in a.links : k.media \notin Pks(fs) }
+    /\ b.errors = { e \in a.errors : e.media \notin Pks(fs) }
     /\ b.keys = a.keys /\ b.mps = a.mps /\ b.periods = a.periods /\ b.adps = a.adps
 C17_DeleteMediaExact(a, b, mpk) ==
     LET fs == { f \in a.files : f.pk = mpk } IN
     /\ b.files = a.files \ fs
     /\ b.blobs = a.blobs \ { f.blob : f \in fs }
     /\ b.links = { k \in a.links : k.media # mpk }
+    /\ b.errors = { e \in a.errors : e.media # mpk }
     /\ b.streams = a.streams /\ b.keys = a.keys /\ b.mps = a.mps /\ b.periods = a.periods /\ b.adps = a.adps
 C17_DeleteKeyExact(a, b, kpk) ==
     /\ b.keys = { k \in a.keys : k.pk # kpk }
     /\ b.links = { k \in a.links : k.key # kpk }
     /\ b.streams = a.streams /\ b.files = a.files /\ b.blobs = a.blobs /\ b.mps = a.mps
-    /\ b.periods = a.periods /\ b.adps = a.adps
+    /\ b.periods = a.periods /\ b.adps = a.adps /\ b.errors = a.errors
 C17_DeleteMpsExact(a, b, mpk) ==
     LET ps == { p \in a.periods : p.parent = mpk } IN
     /\ b.mps = { m \in a.mps : m.pk # mpk }
     /\ b.periods = a.periods \ ps
     /\ b.adps = { x \in a.adps : x.period \notin Pks(ps) }
     /\ b.streams = a.streams /\ b.files = a.files /\ b.blobs = a.blobs /\ b.keys = a.keys /\ b.links = a.links
+    /\ b.errors = a.errors
 \* creating or replacing content in one stream removes nothing that belongs to another stream
+\* the object a deletion addresses
+Exists(a, op, pk) ==
+    IF op = "delete_stream" THEN pk \in Pks(a.streams)
+    ELSE IF op = "delete_media" THEN pk \in Pks(a.files)
+    ELSE IF op = "delete_key" THEN pk \in Pks(a.keys)
+    ELSE IF op = "delete_mps" THEN pk \in Pks(a.mps)
+    ELSE FALSE
+\* a deletion of an existing object that ends in a server error has not removed what it owns
+C17_DeleteDoesNotCrash(a, op, pk, status) == Exists(a, op, pk) => status < 500
 C17_UploadTouchesOnlyItsStream(a, b, spk) ==
     /\ \A f \in a.files : f.stream # spk => f \in b.files
     /\ \A s \in a.streams : s.pk # spk => s \in b.streams
